@@ -3,14 +3,15 @@
 usage: tools/run_all_seeds.py [seed-id ...]   (uses scratch copies of /repo; /repo itself is not touched)"""
 import json, os, subprocess, sys, glob
 VERIF = os.path.dirname(os.path.dirname(os.path.abspath(__file__)))
-ids = sys.argv[1:] or sorted(os.path.basename(d) for d in glob.glob(os.path.join(VERIF, "seeded", "*")) if os.path.isdir(d))
+extra = [a for a in sys.argv[1:] if a.startswith("--")]
+ids = [a for a in sys.argv[1:] if not a.startswith("--")] or sorted(os.path.basename(d) for d in glob.glob(os.path.join(VERIF, "seeded", "*")) if os.path.isdir(d) and os.path.exists(os.path.join(d, "meta.json")))
 bad = 0
 for sid in ids:
     d = os.path.join(VERIF, "seeded", sid)
     meta = json.load(open(os.path.join(d, "meta.json")))
     prop = meta["property"]
     args = ["--tier", "thorough"] if meta.get("tier") == "thorough" else []
-    p = subprocess.run([os.path.join(VERIF, "tools", "try_seed_scratch.sh"), prop, os.path.join(d, "patch.diff")] + args, capture_output=True, text=True)
+    p = subprocess.run([os.path.join(VERIF, "tools", "try_seed_scratch.sh"), prop, os.path.join(d, "patch.diff")] + args + extra, capture_output=True, text=True)
     verdict = "CAUGHT" if p.returncode == 1 else ("UNDECIDED" if p.returncode == 2 else "MISSED")
     if p.returncode != 1:
         bad += 1
